@@ -885,6 +885,9 @@ class PythonPrimitiveToStoneDecoder:
                 ret = datetime.datetime.strptime(val, data_type.format)
             except (TypeError, ValueError) as e:
                 raise bv.ValidationError(e.args[0])
+            if validate:
+                # (e.g. a UTC offset other than zero with a %z format)
+                data_type.validate(ret)
         elif isinstance(data_type, bv.Bytes):
             if self.for_msgpack:
                 if isinstance(val, str):
